@@ -63,6 +63,10 @@ CATALOGUE = [
     '(declare-const x Int)\n(declare-const x Int)\n(assert (= |x| |x|))\n',
     '(declare-const x Int)\n(declare-const |y z| Int)\n(assert (= |x| |y z|))\n',
     '(declare-const |x| Int)\n(declare-const y Int)\n(assert (= x y))\n(assert (> |x| y))\n',
+    # what other steps leave of datatype declarations: a compound term
+    # where the name of a constructor belongs
+    '(declare-datatype D (() (s (s (s (())))) ((s (s (s (())))))))\n(declare-const x D)\n(assert (= x (s (s (())))))\n',
+    '(declare-datatypes ((D 0)) (((A) ((B A)) (C (c (B A))))))\n(declare-const x D)\n(assert (distinct x (C (B A)) (B A)))\n',
     # definitions that mention each other
     '(define-fun f () Int g)\n(define-fun g () Int f)\n(assert (> f 0))\n',
     '(define-fun f ((a Int)) Int (g a))\n(define-fun g ((b Int)) Int (+ (f b) 1))\n(declare-const k Int)\n(assert (> (f k) 0))\n',
